@@ -73,6 +73,8 @@ class DScn:
     rtc: bool = True
     subclass: bool = False           # observe through an empty subclass `class Sub(M): pass`
     states_dict: bool = False        # states declared through `States({id: State(...), ...})`: ids are arbitrary strings
+    placeholders: bool = False       # the events named in `event=` are id-less `Event(name=…)` objects that get their
+                                     # ids from the class attributes they are assigned to (same machine, other spelling)
 
 
 def to_json(s: DScn) -> str:
@@ -384,4 +386,5 @@ def gen_scenario(rng: random.Random, name: str, ids=None) -> DScn:
     s.via = rng.choice(["graph", "dot"])
     s.rtc = rng.random() < 0.8
     s.subclass = rng.random() < 0.15
+    s.placeholders = rng.random() < 0.25
     return s
